@@ -8,6 +8,7 @@ GNext ==
   \/ \E store \in Stores : Attach(store) /\ H([a |-> "Attach", store |-> store])
   \/ \E o \in Scalars, v \in SVals : Assign(o, <<v>>) /\ cnt.ops < MaxOps /\ H([a |-> "Assign", o |-> o, v |-> <<v>>])
   \/ \E o \in Lists, v \in UNION {[1..k -> Elems] : k \in 0..MaxLen} : Assign(o, v) /\ cnt.ops < MaxOps /\ H([a |-> "Assign", o |-> o, v |-> v])
+  \/ \E o \in Lists, o2 \in Lists : AssignFrom(o, o2) /\ cnt.ops < MaxOps /\ H([a |-> "AssignFrom", o |-> o, from |-> o2])
   \/ \E o \in Lists : \E nv \in EditsOf(view[o]) : ListOp(o, nv) /\ cnt.ops < MaxOps /\ H([a |-> "ListOp", o |-> o, old |-> view[o], v |-> nv])
   \/ SaveSend /\ cnt.saves < MaxSaves /\ H([a |-> "SaveSend"])
   \/ SaveAck /\ H([a |-> "SaveAck"])
